@@ -66,6 +66,21 @@ def run(ctx):
                     stream += g.single(1)
                 stream.append(w.sys(name, 2, 1))
                 cases.append(('%s_%d_%d' % (name, nl, rep), w, stream))
+    # two lookups whose FIRST records are byte-identical (same vnode id, same first 24 path bytes, same coarse timestamp):
+    # records are told apart by their position in the stream, not by their contents
+    for name in names:
+        for rep in range(2 if ctx.quick else 10):
+            w = World(rnd, ts=rnd.choice(['const', 'tied']))
+            w.ts_g = 50
+            vid = rnd.getrandbits(64)
+            pre = b'/System/Library/Caches/x'                       # 24 bytes: exactly the text of a first record
+            a, b = rnd.choice([(pre + b'/old-name.plist', pre + b'/new-name.plist'), (b'/tmp/same', b'/tmp/same'),
+                               (pre, pre + b'-and-more'), (pre + b'A' * 40, pre + b'A' * 39 + b'B')])
+            stream = [w.sys(name, 1, 1)] + w.lookup(1, a, vid=vid) + w.lookup(1, b, vid=vid)
+            if rnd.random() < 0.5:
+                stream += w.lookup(1, rnd.choice([a, b, b'/third']), vid=vid)
+            stream.append(w.sys(name, 2, 1))
+            cases.append(('%s_twin_lookups_%d' % (name, rep), w, stream))
     # nested operations: inner syscall's lookups are part of the outer window too
     for i in range(100 if ctx.quick else 2000):
         w = World(rnd, ts='any')
